@@ -100,8 +100,11 @@ pub fn replay(args: &Args) -> i32 {
             }
             continue;
         }
+        // explained by the listed deviations: every reported formula is either the ideal one or the one the
+        // as-is model predicts (a behaviour that exhibits several deviations may have some of them repaired:
+        // then part of the positions read ideal, the rest as-is; a third reading is never explained)
         let is_asis = match &got {
-            Ok(g) => *g == asis,
+            Ok(g) => g.len() == asis.len() && g.iter().zip(asis.iter().zip(ideal.iter())).all(|(o, (a, i))| o == a || o == i),
             Err(e) => e.starts_with("ERROR") && asis.iter().any(|a| a == "ERROR"),
         };
         let key = mismatch_key(&b["dev"], is_asis);
